@@ -114,7 +114,7 @@ def bounded(leg, describe):
         vs = [v for v in d.get("violations", []) if prop in v.get("tags", []) or "*" in v.get("tags", [])]
         rep = {"name": "bounded:" + leg, "bounded": True, "status": "violation" if vs else "passed", "what": describe,
                "wall_s": d.get("wall_s"), "cached_for_identical_sources": d.get("cached_for_identical_sources", False)}
-        for k in ("parts", "cases", "cases_with_injected_fault", "cases_where_B_actually_interleaved", "bound", "samples", "requests", "distinct_outcomes"):
+        for k in ("parts", "cases", "fixtures", "versions_read", "cases_with_injected_fault", "cases_where_B_actually_interleaved", "bound", "samples", "requests", "distinct_outcomes"):
             if k in d:
                 rep[k] = d[k]
         rep["violations"] = [{"kind": "bounded", "name": "bounded:" + leg, "what": v.get("what", "")[:1500], "counterexample": v} for v in vs[:3]]
@@ -126,6 +126,7 @@ EXPLORE = bounded("explore", "model-based exploration of the real Server over In
 FAULTS = bounded("faults", "every storage call of a request (begin, reads, writes, commit) made to fail before / after taking effect, on SQLite behind a fault-injecting Storage wrapper")
 SQLCONF = bounded("sqlconf", "method-by-method conformance of sqlite/src/lib.rs to the storage contract (contracts/storage_trait.rs): every StorageTxn method from enumerated states, results and post-states compared with the contract, abstraction by independent raw SQL, commit / drop / re-open")
 STANDINS = bounded("standins", "value-level samples of the ASSUMED dependency contracts (actix-web builders / error constructors / header access / BytesMut, uuid text, thiserror From, derived Clone/Ord, HashMap::get_mut, Option::replace) against the real crates; samples an assumption, proves nothing")
+FIXTURES = bounded("fixtures", "the committed corpus /verif/fixtures (data directories written by the pinned tree, one with a leftover write-ahead log, each with its recorded logical content) opened with the CURRENT code: everything read back and compared, then each chain extended by a version and a snapshot")
 INTERLEAVE = bounded("interleave", "a complete competing library request placed between any two transactions of an HTTP request, on three backend configurations; outcome compared with both one-at-a-time orders")
 
 
@@ -243,7 +244,7 @@ def _configure():
         legs=[EXPLORE, SQLCONF, HTTP, STANDINS])
     cfg("C07", "proof", ["A1", "A4", "A13"], assumptions=[A["A1"]], not_reached=[NR_SQL, NR_MEM],
         explanation="every operation's postcondition fixes the whole post-state as a function of the pre-state in which existing versions / child links are only ever extended (add_version_spec inserts a fresh key; all other outcomes leave the maps equal); lemma L.immutable",
-        legs=[EXPLORE, SQLCONF])
+        legs=[EXPLORE, SQLCONF, HTTP])
     cfg("C08", "proof", ["A4", "A6", "A11", "A13"], not_reached=[NR_SQL, NR_HTTP],
         explanation="gcv.found / gcv.split / gcv.nosuch of the real Server::get_child_version share the spec fn accept() with av.accept_iff of Server::add_version",
         legs=[EXPLORE, XCHECK])
@@ -255,7 +256,7 @@ def _configure():
         legs=[EXPLORE, SQLCONF, XCHECK])
     cfg("C11", "proof", ["A4", "A6", "A13"], not_reached=[NR_SQL, "schedules (AddSnapshot overlapping GetSnapshot) only via C03's reduction"],
         explanation="gs.pair / gs.none (id and bytes of the stored snapshot, both written by one set_snapshot call: snap.applied), chain_wf's snapshot conjunct (snapshot version on the chain or its base) preserved by every operation, walk lemma L.snap_base",
-        legs=[EXPLORE, SQLCONF, XCHECK])
+        legs=[EXPLORE, SQLCONF, HTTP, XCHECK])
     cfg("C12", "proof", ["A7", "A8", "A10", "A12", "A13"], assumptions=[A["A7"], A["A8"]], not_reached=[NR_SQL, "the wall clock (A10)", "configuration wiring in main (C17)"],
         explanation="threshold functions equal floor(3t/2)/t spec for ALL targets without overflow (Verus over all i64/u32), urgency = max of both from the pre-request record (av.urgency), counter bumped by add_version_spec and reset by new_snap (storage contract)",
         legs=[EXPLORE, KANI_URGENCY, SQLCONF, STANDINS, XCHECK])
@@ -271,6 +272,10 @@ def _configure():
     cfg("C16", "proof", ["A2", "A9", "A13"], assumptions=[A["A9"]], not_reached=[NR_HTTP, "WebServer::new wiring (one constructor call) is covered by the bounded HTTP leg only"],
         explanation="client_id_header's postconditions (hdr.*) + the `authorised` precondition on every library entry point reachable from the handlers (auth.pre.*): a handler cannot reach the library, not even to open a transaction, for an id the allow-list excludes; 403 => call log unchanged",
         legs=[HTTP, STANDINS])
+    cfg("C19", "other", ["A5", "A11", "A13"], assumptions=[A["A11"], "the corpus was written by the tree pinned for this task (HEAD 8109860 = the pinned commit a6bc6ed + the two `fix:` commits, neither of which touches the sqlite crate: `git diff a6bc6ed HEAD -- sqlite` is empty)"],
+        not_reached=[NR_SQL, "the schema and every SQL statement (table / column names and meaning, timestamp unit, migration steps): SQL text, covered only by the fixture corpus", "databases left by a crash in the middle of a write (C04); the corpus holds clean images and one image with an un-checkpointed WAL"],
+        explanation="what of the on-disk form is Rust is under contract: StoredUuid's ToSql / FromSql impls (sqlite/src/lib.rs) write an id as owned TEXT holding exactly its canonical text and read it back by parsing that text, never inventing an id (enc.id.write, enc.id.read, round-trip lemma enc.id.roundtrip over the assumed uuid text law A11). Everything else that decides whether an old database is still served -- schema, column meaning, timestamp unit, start-up statements -- is SQL and is decided only for the committed corpus: 4 data directories written by the pinned tree, opened, read completely, compared with their recorded content and extended. 'other': a relation between two builds is not a contract on one of them",
+        legs=[FIXTURES, SQLCONF, STANDINS])
     cfg("C20", "other", ["A9", "A13"], assumptions=[A["A9"], "that actix-web applies a scope's middleware to EVERY response of the scope (errors, unknown routes) is assumed, not verified"],
         not_reached=[NR_HTTP, "other middleware wrapped by the binary's main() around the whole App (ErrorHandlers, Logger)"],
         explanation="structural obligation cfg.cache on the real WebServer::config: exactly one scope is registered, wrapped by exactly one middleware, a DefaultHeaders adding Cache-Control with a value that forbids storage, and nothing else is wrapped around it; the implication to 'every response' rests on the assumed actix contract; the bounded HTTP leg checks the header on every response it sees (all routes, outcomes, refusals, unknown routes, storage failures)",
@@ -282,7 +287,7 @@ def _configure():
         legs=[PROCESS, STANDINS])
     cfg("C18", "proof", ["A4", "A6", "A11", "A13"], not_reached=[NR_SQL],
         explanation="every non-mutating outcome (reads, conflict, declined snapshot, unknown client, refused request) leaves the whole transaction view / call log equal up to the fault counter",
-        legs=[EXPLORE, SQLCONF, XCHECK])
+        legs=[EXPLORE, SQLCONF, HTTP, XCHECK])
 
 
 def process_leg(prop, tier, seed):
